@@ -55,4 +55,11 @@ InitOK(declared, actual)   == Sub(declared, actual)
 \* C07 rule: a write reaches a binding; it is accepted iff that binding is defined and mutable and every receiver on the
 \* way to it is mutable
 WriteOK(defined, mutable, recvMutable) == defined /\ mutable /\ recvMutable
+
+\* C08 rules.  Exception hierarchy of the probes; R raised, D declared by the enclosing function, H handled around it.
+ExcParent == [E1 |-> {"Exception"}, E1a |-> {"E1"}, E1b |-> {"E1a"}, E2 |-> {"Exception"}, Exception |-> {}, NotExc |-> {}]
+RECURSIVE ExcAnc(_)
+ExcAnc(c) == {c} \cup UNION {ExcAnc(p) : p \in ExcParent[c]}
+RaisesOK(R, D, H) == \E x \in D \cup H : x \in ExcAnc(R)
+DeclarableOK(d) == "Exception" \in ExcAnc(d)
 =====================================================================================
